@@ -359,15 +359,16 @@ Lemma create_answer_c06 s s' d :
 Proof.
   intros [_ [Hc Hp]] Hcod H. unfold create_answer in H.
   destruct (remote_desc s) as [rd|] eqn:R; [|discriminate].
-  destruct (sig s); try discriminate.
-  destruct (gen_matched s rd false) as [l [[[secs add] g]|e|]] eqn:E; try discriminate.
-  destruct (populate (has_codecs (set_trs s l)) g secs) as [p|e|] eqn:P; try discriminate.
-  injection H as _ <-.
-  apply populate_c06 with (1 := Hcod) (2 := P).
-  eapply gen_matched_answer_nodup; [|exact E].
-  unfold remote_desc in R. destruct (pend_remote s) as [pe|] eqn:Pe.
-  - injection R as <-. apply Hp. reflexivity.
-  - apply Hc. exact R.
+  assert (Hrd : rdesc_ok rd).
+  { unfold remote_desc in R. destruct (pend_remote s) as [pe|] eqn:Pe.
+    - injection R as <-. apply Hp. reflexivity.
+    - apply Hc. exact R. }
+  destruct (sig s); try discriminate;
+    (destruct (gen_matched s rd false) as [l [[[secs add] g]|e|]] eqn:E; try discriminate;
+     destruct (populate (has_codecs (set_trs s l)) g secs) as [p|e|] eqn:P; try discriminate;
+     injection H as _ <-;
+     apply populate_c06 with (1 := Hcod) (2 := P);
+     eapply gen_matched_answer_nodup; [exact Hrd|exact E]).
 Qed.
 
 (* C06 over every history *)
@@ -383,6 +384,8 @@ Proof.
     destruct Hin as [[= <- <- <- <-]|Hin]; [exact E|]. exact (IH _ Hin). }
   destruct o; cbn [step] in Hstep.
   - destruct (add_transceiver s k d0); discriminate.
+  - destruct (add_track s k); discriminate.
+  - destruct (remove_track s i); discriminate.
   - destruct (stop_transceiver s i); discriminate.
   - destruct (create_data_channel s); discriminate.
   - destruct (create_offer s) as [s1 r] eqn:E. injection Hstep as -> ->.
